@@ -274,8 +274,15 @@ func (g *genState) reqsC04(docs map[uuid.UUID]Val) []requestSpec {
 	r := g.r
 	var out []requestSpec
 	n := len(docs)
+	prop := "fv"
+	for _, ix := range g.schema {
+		if ix.kind == ixFlat {
+			prop = ix.path
+			break
+		}
+	}
 	for k := 0; k < 6; k++ {
-		q := querySpec{kind: "flat", prop: "fv", vec: g.genVec(g.dim)}
+		q := querySpec{kind: "flat", prop: prop, vec: g.genVec(g.dim)}
 		switch r.IntN(4) {
 		case 0:
 			q.limit = 1 + r.IntN(75)
@@ -549,7 +556,7 @@ func (g *genState) vecExtras(env *shardEnv, ix idxSpec, bucket string, qkind str
 		}
 		var items []string
 		for id, d := range docs {
-			fv, ok := d.get(ix.path)
+			fv, ok := d.getPath(ix.path)
 			if !ok {
 				continue
 			}
